@@ -1,6 +1,8 @@
 import S2T.Drv.Util
 import S2T.Model.Images
 import S2T.Gen.Images
+import S2T.Model.ImageParts
+import S2T.Gen.ImageParts
 namespace S2T.Drv.C14
 open Lean S2T.Drv S2T.Images
 
@@ -100,7 +102,22 @@ def extract (j : Json) : Except String Json := do
       let (d, as) ← pairOf u
       let as ← (← arrOf as).mapM (fun a => do let (k, t) ← pairOf a; return ((← k.getNat?), (← optStrOf t)))
       return ((← optStrOf d).map xlsxDrawingPath, as))
-    return Json.mkObj [("units", jUnits (xlsxExtract pkg sheets))]
+    -- from the package: "n" sheets, "rels" = [[member name, drawing target | null]] for every worksheet relationships
+    -- part of the zip, "drawings" = [[drawing part name, anchors]]; the model probes the names itself
+    let fromPkg ← (do
+      match j.getObjVal? "rels" with
+      | .error _ => pure []
+      | .ok rv =>
+        let n ← getNat j "n"
+        let relsL ← (← arrOf rv).mapM (fun r => do let (a, b) ← pairOf r; return ((← strOf a), (← optStrOf b)))
+        let drawL ← (← arrOf (← j.getObjVal? "drawings")).mapM (fun d => do
+          let (p, as) ← pairOf d
+          let as ← (← arrOf as).mapM (fun a => do let (k, t) ← pairOf a; return ((← k.getNat?), (← optStrOf t)))
+          return ((← strOf p), as))
+        let rels : SheetRels := fun nm => (relsL.find? (fun r => r.1 == nm)).map (·.2)
+        let dr : Drawings := fun d => ((drawL.find? (fun r => r.1 == d)).map (·.2)).getD []
+        pure [("units_pkg", jUnits (xlsxExtractPkg pkg rels dr n))])
+    return Json.mkObj ([("units", jUnits (xlsxExtract pkg sheets))] ++ fromPkg)
   | "docx" | "docx_old" =>
     let rels ← unitsJ.mapM (fun a => do
       match (← a.getArr?).toList with
@@ -123,12 +140,22 @@ def extract (j : Json) : Except String Json := do
     return Json.mkObj [("units", jUnits [rtfExtract ps])]
   | _ => throw s!"unknown format {fmt}"
 
+/-- op `c14.pdffilter`: {"f": filter name | [names]} ↦ {"filter", "format", "ct"} as `_extract_image` stores them -/
+def pdffilter (j : Json) : Except String Json := do
+  let v ← j.getObjVal? "f"
+  let f ← match v with
+    | .arr a => do pure (PdfFilter.array (← a.toList.mapM strOf))
+    | v => do pure (PdfFilter.name (← strOf v))
+  return Json.mkObj [("filter", jStr (pdfFilterType f)), ("format", jStr (pdfFormat S2T.Gen.ImageParts.pdf_format f)),
+                     ("ct", jStr (pdfCtype S2T.Gen.ImageParts.pdf_ctype f))]
+
 def handle (op : String) (j : Json) : Option (Except String Json) :=
   match op with
   | "c14.resolve" => some (resolve j)
   | "c14.ctype" => some (ctype j)
   | "c14.sniff" => some (sniff j)
   | "c14.extract" => some (extract j)
+  | "c14.pdffilter" => some (pdffilter j)
   | _ => none
 
 end S2T.Drv.C14
